@@ -48,11 +48,18 @@ def tasks(tier):
         ts.append(("run %s" % "".join("T" if x else "F" for x in p), "run_scenario", dict(pattern=list(p), maxiter=len(p))))
     ts.append(("run maxiter=0", "run_scenario", dict(pattern=[], maxiter=0)))
     ts.append(("run nan", "run_nan", {}))
+    # necessary for "the returned field carries exactly the prescribed values": the prescribed-value vector ext0 lists each boundary's value at its unknown
+    ts.append(("prescribed values (dof.partition / dof.apply)", "run_included", dict(modname="c08", fname="run_partition", kwargs=dict(dim=2), oid="C07.O8",
+                                                                                 why="ext0 and dof0 handed to the solver come from dof.apply / dof.partition")))
     ts.append(("tools.solve", "run_tools_solve", {}))
     # the same obligations on the inputs the generic evaluation leaves out: values that are unequal but within numpy's isclose tolerance
     for p in ([True], [False, True], [False, False]):
         ts.append(("run %s close" % "".join("T" if x else "F" for x in p), "run_scenario", dict(pattern=list(p), maxiter=len(p), close=True)))
     ts.append(("tools.solve close", "run_tools_solve", dict(close=True)))
+    # boundary value of the input space: every prescribed value exactly zero while the start state is not
+    for p in ([True], [False, True]):
+        ts.append(("run %s zero" % "".join("T" if x else "F" for x in p), "run_scenario", dict(pattern=list(p), maxiter=len(p), zero=True)))
+    ts.append(("tools.solve zero", "run_tools_solve", dict(zero=True)))
     return ts
 
 
@@ -212,8 +219,20 @@ def run_check(col):
     finish_info(col, it)
 
 
+ZERO_EXT0 = [False]  # prescribed values all exactly zero (unloading to zero from a deformed state): a boundary value of the input space
+
+
+def _maybe_zero(ext0):
+    if ZERO_EXT0[0]:
+        z = np.empty(ext0.shape, dtype=object)
+        z[...] = ZERO
+        return z
+    return ext0
+
+
 def _run_newton(it, pattern, maxiter, log, nfields=1, nan_at=None):
     fc, n, dof0, dof1, ext0, regs = scenario.make_problem(it, nfields=nfields)
+    ext0 = _maybe_zero(ext0)
     m = sym("mult")
     items = [scenario.FakeItem(log, "A", fc, n), scenario.FakeItem(log, "B", fc, n, multiplier=m)]
     solver = scenario.ScriptedSolver(log)
@@ -228,20 +247,24 @@ def _run_newton(it, pattern, maxiter, log, nfields=1, nan_at=None):
     return res, fc, n, dof0, dof1, ext0, items, u_start, m
 
 
-def run_scenario(col, pattern, maxiter, close=False):
+def run_scenario(col, pattern, maxiter, close=False, zero=False):
     npmodel.CLOSE_WORLD[0] = "close" if close else "generic"
+    ZERO_EXT0[0] = zero
     try:
-        _run_scenario(col, pattern, maxiter, close)
+        _run_scenario(col, pattern, maxiter, close, zero)
     finally:
         npmodel.CLOSE_WORLD[0] = "generic"
+        ZERO_EXT0[0] = False
 
 
-def _run_scenario(col, pattern, maxiter, close):
+def _run_scenario(col, pattern, maxiter, close, zero=False):
     it = new_interp()
     log = []
     name = "".join("T" if x else "F" for x in pattern) or "maxiter=0"
     if close:
         name += " [inputs on which tolerance predicates answer 'close']"
+    if zero:
+        name += " [all prescribed values exactly zero, non-zero start state]"
     converges = bool(pattern) and pattern[-1]
     try:
         res, fc, n, dof0, dof1, ext0, items, u_start, m = _run_newton(it, pattern, maxiter, log)
@@ -349,18 +372,21 @@ def run_nan(col):
     finish_info(col, it)
 
 
-def run_tools_solve(col, close=False):
+def run_tools_solve(col, close=False, zero=False):
     npmodel.CLOSE_WORLD[0] = "close" if close else "generic"
+    ZERO_EXT0[0] = zero
     try:
-        _run_tools_solve(col, close)
+        _run_tools_solve(col, close, zero)
     finally:
         npmodel.CLOSE_WORLD[0] = "generic"
+        ZERO_EXT0[0] = False
 
 
-def _run_tools_solve(col, close):
+def _run_tools_solve(col, close, zero=False):
     """tools._solve.solve: the partitioned solve split by field offsets"""
     it = new_interp()
     fc, n, dof0, dof1, ext0, regs = scenario.make_problem(it, nfields=2)
+    ext0 = _maybe_zero(ext0)
     log = []
     K = npmodel.AbstractSparse(symarray("K", (n, n)))
     f = symarray("f", (n,))
@@ -381,5 +407,11 @@ def _run_tools_solve(col, close):
     flat = np.concatenate([npmodel.to_obj(np.asarray(x)).reshape(-1) for x in d])
     okp = all(is_zero(P(flat[j]) - (ext0[b] - u[j])) for b, j in enumerate(dof0))
     sizes = [len(np.asarray(x).reshape(-1)) for x in d]
-    col.add("C07.O5", "tools.solve" + (" [inputs on which tolerance predicates answer 'close']" if close else ""), "for the right-hand side f of K u = f: K11 du1 = f1 - K10 (ext0 - u0), du0 = ext0 - u0, result split by the field offsets", not bad and okp and sizes == [8, 2], "rows %s sizes %s" % (bad, sizes))
+    col.add("C07.O5", "tools.solve" + (" [inputs on which tolerance predicates answer 'close']" if close else "") + (" [all prescribed values exactly zero]" if zero else ""), "for the right-hand side f of K u = f: K11 du1 = f1 - K10 (ext0 - u0), du0 = ext0 - u0, result split by the field offsets", not bad and okp and sizes == [8, 2], "rows %s sizes %s" % (bad, sizes))
     finish_info(col, it)
+
+
+def run_included(col, modname, fname, kwargs, oid, why):
+    from ..common import include
+
+    include(col, modname, fname, kwargs, oid, why)
